@@ -115,7 +115,7 @@ def run_shard(spec):
                 runner.count(res, 'spelling_pairs_' + v0)
         res['exhaustive'] = True
     elif k == 'returns':
-        for tag, src, exp in T.return_cases():
+        for tag, src, exp in list(T.return_cases()) + list(T.builtin_cases()):
             judge(res, tag, src, exp)
         res['exhaustive'] = True
     elif k == 'mutations':
